@@ -21,6 +21,7 @@ Clauses(ev, exp) ==
       omsg == o.k = "msg"
       expLoss == exp.res = "raise" /\ exp.exc = "ConnectionLost"
   IN (IF omsg /\ ~o.faithful THEN {"C08.NotFaithful"} ELSE {})
+\cup (IF ~ev.earlier THEN {"C08.NotFaithful"} ELSE {})       \* a message handed out by an earlier call changed under the caller's hands
 \cup (IF omsg /\ o.id \in Ids(q) /\ ~(Subscribed(State, FrameById(q, o.id)) \/ (ev.ack /\ FrameById(q, o.id).t = ACKT))
       THEN {"C08.UnsubscribedReturned"} ELSE {})
 \cup (IF (exp.res = "raise" /\ exp.exc \in DecodeErrors /\ ~(oraise /\ o.exc = exp.exc))
